@@ -66,7 +66,8 @@ def check_anchor(rep, qualified, relfile, pattern=None):
 class Harness:
     """one harness source compiled per group (symbolic + native) and its cached traces"""
 
-    def __init__(self, source, assertions=True, extra_defines=()):
+    def __init__(self, source, assertions=True, extra_defines=(), auto_valid=False):
+        self.auto_valid = auto_valid
         self.source = source
         self.assertions = assertions
         self.extra = list(extra_defines)
@@ -109,7 +110,7 @@ class Harness:
     def paths(self, g, scenario):
         key = (g, scenario)
         if key not in self.traces:
-            ps, done = build.run_scenarios(self.bins[g], [scenario])
+            ps, done = build.run_scenarios(self.bins[g], [scenario], env=self._env())
             if scenario not in done:
                 raise Undecided("scenario %s did not complete for %s" % (scenario, g))
             self.traces[key] = ps
@@ -119,11 +120,14 @@ class Harness:
         need = [s for s in scenarios if (g, s) not in self.traces]
         if not need:
             return
-        ps, done = build.run_scenarios(self.bins[g], need)
+        ps, done = build.run_scenarios(self.bins[g], need, env=self._env())
         for s in need:
             if s not in done:
                 raise Undecided("scenario %s did not complete for %s" % (s, g))
             self.traces[(g, s)] = [p for p in ps if p.scenario == s]
+
+    def _env(self):
+        return {"VS_AUTO_VALID": "1"} if self.auto_valid else None
 
     def native(self, g, scenario):
         return (self.natives.get(g), scenario)
